@@ -72,12 +72,59 @@ def image(region, n):
             for i in range(n)]
 
 
-def run_script(ctx, script, hl):
-    ws = bpa.analyse(ctx.mod, script, lambda: ([], {FC.PDU: Region(FC.PDU, 'sym', hl)}), max_worlds=2,
+def run_script(ctx, script, hl, cap=64):
+    ws = bpa.analyse(ctx.mod, script, lambda: ([], {FC.PDU: Region(FC.PDU, 'sym', hl)}), max_worlds=cap,
                      max_steps=2000000, gcache=ctx.gcache)
-    if len(ws) != 1 or ws[0].status != 'ok':
-        return None, '; '.join(str(w.reason) for w in ws)
-    return ws[0], None
+    oks, err = FC.ok_worlds(ws, cap=cap)
+    if err:
+        return None, err
+    return oks, None
+
+
+def expected_after(f, hl, chron, init=False):
+    """reference header after writing (field, value name, value width) in order"""
+    exp = [[('I', FC.PDU, o, b) for b in range(8)] for o in range(hl)]
+    if init:
+        img = FC.expected_image(f)
+        for o in range(min(hl, len(img))):
+            exp[o] = list(B.to_bits(img[o], 8))
+    for (fld, name, P) in chron:
+        wd = fld['width']
+        for hb in FC.field_bits(fld):
+            j = fld['bit'] + wd - 1 - hb
+            if hb // 8 < hl:
+                exp[hb // 8][7 - hb % 8] = ('A', name, j) if j < P else 0
+    return exp
+
+
+def check_image(worlds, exp, hl):
+    """-> None if every world's header equals exp under its path condition, else (status, text)"""
+    for w in worlds:
+        with FC.with_world(w.decisions):
+            act = image(w.regions[FC.PDU], hl)
+            for o in range(hl):
+                if tuple(act[o]) == tuple(exp[o]):
+                    continue
+                st, info = FC.compare_vec(tuple(act[o]), tuple(exp[o]), 8)
+                if st == 'eq':
+                    continue
+                if st == 'unknown':
+                    return 'undecided', 'octet %d undetermined' % o
+                return 'violation', 'octet %d is %s, the reference encoding is %s; witness: %s' % (
+                    o, B.fmt_vec(tuple(act[o]), 8), B.fmt_vec(tuple(exp[o]), 8), FC.fmt_env(info[1]))
+    return None
+
+
+def check_ret(worlds, want, R):
+    for w in worlds:
+        with FC.with_world(w.decisions):
+            st, info = FC.compare_vec(w.ret, want, R)
+        if st == 'unknown':
+            return 'undecided', 'result bit %d undetermined' % info
+        if st == 'differs':
+            return 'violation', 'result bit %d is %s, expected %s; witness: %s' % (
+                info[0], B.fmt_term(B.to_bits(w.ret, R)[info[0]]), B.fmt_term(want[info[0]]), FC.fmt_env(info[1]))
+    return None
 
 
 def _pairs(t):
@@ -94,32 +141,30 @@ def _pairs(t):
     for j, fj in enumerate(f['fields']):
         fn_j, P_j, a_j = setter_for(ctx, f, fj, 'id')
         gj, ga_j = getter_for(ctx, f, fj, 'ded')
+        R = FC.ret_width(ctx.mod, ctx.fn(gj))
         key = '%s:%s>%s' % (fmt, fi['name'], fj['name'])
         if i == j:
-            # overwrite: set(v1); set(v2) == set(v2); then read gives v2 mod 2^w
             def s1(m, _):
                 m.call(fn_i, a_i(val('v1', P_i, wi)))
                 m.call(fn_j, a_j(val('v2', P_j, wi)))
                 return m.call(gj, ga_j())
-
-            def s2(m, _):
-                m.call(fn_j, a_j(val('v2', P_j, wi)))
-                return None
             w1, e1 = run_script(ctx, s1, hl)
-            w2, e2 = run_script(ctx, s2, hl)
-            if w1 is None or w2 is None:
-                out.append(('undecided', key, '%s then %s: %s' % (fn_i, fn_j, e1 or e2)))
+            if w1 is None:
+                out.append(('undecided', key, '%s then %s: %s' % (fn_i, fn_j, e1)))
                 continue
-            if image(w1.regions[FC.PDU], hl) != image(w2.regions[FC.PDU], hl):
-                out.append(('violation', key + ':overwrite', '%s: writing %s.%s twice (via %s then %s) does not leave the image of the last write alone'
-                            % (FC.fnloc(ctx, fn_j), fmt, fi['name'], fn_i, fn_j)))
+            exp = expected_after(f, hl, [(fi, 'v1', P_i), (fj, 'v2', P_j)])
+            bad = check_image(w1, exp, hl)
+            if bad:
+                out.append((bad[0], key + ':overwrite', '%s: writing %s.%s twice (via %s then %s): %s'
+                            % (FC.fnloc(ctx, fn_j), fmt, fi['name'], fn_i, fn_j, bad[1])))
                 continue
-            R = FC.ret_width(ctx.mod, ctx.fn(gj))
-            want = tuple(('A', 'v2', k) if k < min(wi, P_j) else 0 for k in range(R))
-            if B.to_bits(w1.ret, R) != want and wi <= R:
-                out.append(('violation', key + ':read-after-write', '%s: reading %s.%s after writing v1 then v2 returns %s, expected v2 modulo 2^%d'
-                            % (FC.fnloc(ctx, gj), fmt, fi['name'], B.fmt_vec(w1.ret, R), wi)))
-                continue
+            if wi <= R:
+                want = tuple(('A', 'v2', k) if k < min(wi, P_j) else 0 for k in range(R))
+                bad = check_ret(w1, want, R)
+                if bad:
+                    out.append((bad[0], key + ':read-after-write', '%s: reading %s.%s after writing v1 then v2: %s'
+                                % (FC.fnloc(ctx, gj), fmt, fi['name'], bad[1])))
+                    continue
             n_ok += 1
             continue
         if fi['width'] == 0 or fj['width'] == 0:
@@ -139,24 +184,25 @@ def _pairs(t):
         def a_then_read_b(m, _):
             m.call(fn_i, a_i(val('v1', P_i, wi)))
             return m.call(gj, ga_j())
-
-        def read_b(m, _):
-            return m.call(gj, ga_j())
         wab, e1 = run_script(ctx, ab, hl)
         wba, e2 = run_script(ctx, ba, hl)
         wr1, e3 = run_script(ctx, a_then_read_b, hl)
-        wr0, e4 = run_script(ctx, read_b, hl)
-        if None in (wab, wba, wr1, wr0):
-            out.append(('undecided', key, '%s / %s: %s' % (fn_i, fn_j, e1 or e2 or e3 or e4)))
+        if None in (wab, wba, wr1):
+            out.append(('undecided', key, '%s / %s: %s' % (fn_i, fn_j, e1 or e2 or e3)))
             continue
-        if image(wab.regions[FC.PDU], hl) != image(wba.regions[FC.PDU], hl):
-            out.append(('violation', key + ':commute', 'src/avtp: writes to %s.%s (%s) and %s.%s (%s) do not commute: the header depends on their order'
-                        % (fmt, fi['name'], fn_i, fmt, fj['name'], fn_j)))
+        exp = expected_after(f, hl, [(fi, 'v1', P_i), (fj, 'v2', P_j)])
+        bad = check_image(wab, exp, hl) or check_image(wba, exp, hl)
+        if bad:
+            out.append((bad[0], key + ':commute', 'src/avtp: writes to %s.%s (%s) and %s.%s (%s) in either order must give the reference header: %s'
+                        % (fmt, fi['name'], fn_i, fmt, fj['name'], fn_j, bad[1])))
             continue
-        if wr1.ret != wr0.ret:
-            out.append(('violation', key + ':interference', '%s: %s.%s reads differently after a write to %s.%s via %s'
-                        % (FC.fnloc(ctx, gj), fmt, fj['name'], fmt, fi['name'], fn_i)))
-            continue
+        if fj['width'] <= R:
+            want = FC.expected_get(fj, R)
+            bad = check_ret(wr1, want, R)
+            if bad:
+                out.append((bad[0], key + ':interference', '%s: %s.%s read after a write to %s.%s via %s: %s'
+                            % (FC.fnloc(ctx, gj), fmt, fj['name'], fmt, fi['name'], fn_i, bad[1])))
+                continue
         n_ok += 1
     return out, n_ok
 
@@ -194,46 +240,31 @@ def _history(t):
             g, ga = getter_for(ctx, f, fld, 'id')
             rets[k] = m.call(g, ga())
         return None
-    w, err = run_script(ctx, script, hl)
+    ws, err = run_script(ctx, script, hl, cap=64)
     key = '%s:history:%s:%d' % (fmt, order_kind, seed)
-    if w is None:
+    if ws is None:
+        if 'worlds' in (err or ''):
+            return [('skipped', key, 'history on %s not analysed exactly: %s (the verdict then rests on H1-H5 and the pair analysis)' % (fmt, err))], 0
         return [('undecided', key, 'history on %s: %s' % (fmt, err))], 0
+    if len(ws) != 1:
+        return [('skipped', key, 'history on %s forks into %d worlds; not analysed exactly' % (fmt, len(ws)))], 0
+    w = ws[0]
     last = {}
     for (k, fn, P, a) in plan:
         last[k] = ('v%d' % k, P)
     for (k, fn, P, a) in plan[::2]:
         last[k] = ('w%d' % k, P)
-    # reference encoding
-    exp = [[(0 if f['init'] else ('I', FC.PDU, o, b)) for b in range(8)] for o in range(hl)]
-    if f['init']:
-        img = FC.expected_image(f)
-        for o in range(min(hl, len(img))):
-            exp[o] = list(B.to_bits(img[o], 8))
-    for k in sorted(last, key=lambda k_: [p[0] for p in plan].index(k_)):
-        pass
-    # apply in chronological order: first pass then second pass
-    chron = [(k, 'v%d' % k, P) for (k, fn, P, a) in plan] + [(k, 'w%d' % k, P) for (k, fn, P, a) in plan[::2]]
-    for (k, name, P) in chron:
-        fld = fields[k]
-        wd = fld['width']
-        for hb in FC.field_bits(fld):
-            j = fld['bit'] + wd - 1 - hb
-            if hb // 8 < hl:
-                exp[hb // 8][7 - hb % 8] = ('A', name, j) if j < P else 0
-    act = image(w.regions[FC.PDU], hl)
-    for o in range(hl):
-        if tuple(exp[o]) != tuple(act[o]):
-            st, info = FC.compare_vec(tuple(act[o]), tuple(exp[o]), 8)
-            if st == 'unknown':
-                return [('undecided', key, 'history on %s: octet %d undetermined' % (fmt, o))], 0
-            return [('violation', key + ':image',
-                     'src/avtp (%s): after init + %d writes (%s order, mixed entry points) header octet %d is %s, the reference encoding of the last values is %s'
-                     % (f['source'], len(chron), order_kind, o, B.fmt_vec(tuple(act[o]), 8), B.fmt_vec(tuple(exp[o]), 8)))], 0
+    chron = [(fields[k], 'v%d' % k, P) for (k, fn, P, a) in plan] + [(fields[k], 'w%d' % k, P) for (k, fn, P, a) in plan[::2]]
+    exp = expected_after(f, hl, chron, init=bool(f['init']))
+    bad = check_image([w], exp, hl)
+    if bad:
+        return [(bad[0], key + ':image',
+                 'src/avtp (%s): after init + %d writes (%s order, mixed entry points): %s'
+                 % (f['source'], len(chron), order_kind, bad[1]))], 0
     for k, fld in enumerate(fields):
         name, P = last[k]
         wd = fld['width']
         want = tuple(('A', name, j) if j < min(wd, P) else 0 for j in range(64))
-        # overlapping fields (none expected) would show here as well
         if B.to_bits(rets[k], 64) != want:
             return [('violation', key + ':readback', 'src/avtp (%s): after the history field %s reads %s, expected the last value written modulo 2^%d'
                      % (f['source'], fld['name'], B.fmt_vec(rets[k], 64), wd))], 0
@@ -311,6 +342,10 @@ def run(ctx, tier, res, tag=''):
                     res.sample(info, limit=6)
             elif st == 'violation':
                 res.violation(key + tag, info)
+            elif st == 'skipped':
+                res.count('histories skipped because accessor control depends on data')
+                if len([n for n in res.notes if 'not analysed exactly' in n or 'forks into' in n]) < 3:
+                    res.notes.append(info)
             else:
                 res.undec(info)
     res.rule = ('H1-H3: set/init/get lemmas for every entry point (as C02/C04/C01); H4: measured write footprints pairwise disjoint; '
